@@ -63,6 +63,7 @@ mutual
   def VE.refs : VE → List Nat
     | .atom _ => []
     | .fresh => []
+    | .mkRef _ => []
     | .ref id => [id]
     | .node _ _ _ _ items => refsItems items
   def refsItems : List (Key × VE) → List Nat
@@ -75,6 +76,7 @@ def Op.target? : Op → Option Nat
   | .clone _ _ => none
   | .setItem t _ _ | .delItem t _ | .lAppend t _ | .lInsert t _ _ | .lExtend t _ | .lPop t _
   | .lRemove t _ | .lClear t | .lSort t _ _ | .lReverse t | .lIMul t _ | .lSetSlice t _ _ _ _
+  | .lDelSlice t _ _ _ | .setSeal t _
   | .dPop t _ | .dPopItem t | .dClear t | .dSetDefault t _ _ | .dUpdate t _ | .rebind t _ _ => some t
 
 def Op.refs : Op → List Nat
@@ -125,14 +127,14 @@ def usesDefectF02 : Op → Bool
 
 def usesDefectF03 (notifyOn : Bool) : Op → Bool
   | .setItem _ (.i idx) _ => !notifyOn && idx < 0
-  | .lInsert .. | .lPop .. | .lRemove .. | .lSetSlice .. => !notifyOn
+  | .lInsert .. | .lPop .. | .lRemove .. | .lSetSlice .. | .lDelSlice .. => !notifyOn
   | .delItem _ (.i _) => !notifyOn
   | .rebind _ _ skip => skip.getD (!notifyOn)
   | .dUpdate .. => true
   | _ => false
 
 def Admissible (cfg : Cfg) (f : Forest) (notifyOn : Bool) (op : Op) : Bool :=
-  !divergent f op && refsDistinct op && !insertsOwnChild f op &&
+  !divergent f op && refsDistinct op && (cfg.insertCopiesOwn || !insertsOwnChild f op) &&
     (cfg.reindexOnReorder || !usesDefectF02 op) &&
     (cfg.reindexOnMutate || !usesDefectF03 notifyOn op)
 
